@@ -90,7 +90,7 @@ class C02(Check):
         "scipy.optimize.curve_fit (3-point curves): coefficients taken from the code, fit residual reported in the evidence only",
     ]
     assumptions = [
-        "the step is REPORTED (every reported step is judged, whatever options.hydraulic.unbalanced / trials are); link not isolated",
+        "the step is REPORTED (every reported step is judged, whatever options.hydraulic.unbalanced / trials are); link not cut off from every source by the check's own reachability",
         "pump speed 1.0 (the simulator refuses other speeds)",
     ]
 
@@ -467,13 +467,19 @@ class C02(Check):
         ctx.count("steps", len(tb.times))
         for k, t in enumerate(tb.times):
             frm = cap["frames"][k]
+            closed = set(x["name"] for x in spec["links"] if int(tb.status[k, tb.lcol[x["name"]]]) == 0)
+            conn = C.connected_nodes(spec, closed)
             for l in spec["links"]:
                 name = l["name"]
                 kind = C.link_kind(l)
                 c = tb.lcol[name]
                 if name in frm["iso_l"]:
-                    ctx.count("skip:isolated_link")
-                    continue
+                    # WNTR flags the link isolated; the check decides itself: only a link whose two ends are really cut off from every
+                    # tank / reservoir (own reachability over links not reported Closed) is outside the statement
+                    if l["start"] not in conn and l["end"] not in conn:
+                        ctx.count("skip:isolated_link")
+                        continue
+                    ctx.count("flagged_isolated_but_connected")
                 sti = int(tb.status[k, c])
                 rp = {"spec": spec.get("_origin", spec), "link": name, "t": t}
                 if sti not in ST:
